@@ -116,6 +116,37 @@ def run_case(case, drv):
                     break
     if G.snapshot(Qobj) != before:
         res.fail("q2i:mutates-input", f"QUBO_to_Ising modified its {kind} input")
+    # narrow integer storage (int8, int16, bool): QUBO_to_Ising itself never adds two entries in the matrix's own type (it sums into the
+    # platform integer and scales into floats), so entries that FIT the type must give the exact Ising problem even when sums of two of
+    # them would not fit.  (Other functions of the package do add in the input's dtype: there the overflow is numpy's and is not claimed.)
+    if case["mode"] == "square" and r <= 5:
+        for dt, scale, ok_ in ((np.int8, 25, True), (np.int16, 8000, True), (np.bool_, 1, all(v in (0, 1) for row in M for v in row))):
+            if not ok_:
+                continue
+            Mi = [[int(v * 4) % 5 * scale if dt is not np.bool_ else int(v) for v in row] for row in M] if dt is not np.bool_ else [[int(v) for v in row] for row in M]
+            if dt is not np.bool_:
+                Mi = [[(v if (i + j) % 2 == 0 else -v) for j, v in enumerate(row)] for i, row in enumerate(Mi)]
+            A = np.array(Mi).astype(dt)
+            Mi = [[int(t) for t in row] for row in A.astype(int).tolist()]
+            cont = A if kind == "ndarray" else (sp.csr_array(A) if kind in ("csr", "csr_matrix", "csc") else sp.coo_array(A) if kind.startswith("coo") else sp.lil_array(A))
+            try:
+                Jn, hn, cn = qt.QUBO_to_Ising(cont, 0.0)
+                Jn, hn, cn = G.dense_fr(Jn), G.vec_fr(hn), F(cn)
+            except Exception as e:  # noqa
+                res.fail("q2i:narrow-dtype-raises", f"QUBO_to_Ising raised {e!r} on a {np.dtype(dt).name} {kind} matrix")
+                break
+            bad = None
+            for x in list(G.all_binary(r))[:16]:
+                sv = [1 - 2 * int(t) for t in x]
+                e_i = sum(Jn[i][j] * sv[i] * sv[j] for i in range(r) for j in range(r)) + sum(hn[i] * sv[i] for i in range(r)) + cn
+                e_q = sum(Fraction(Mi[i][j]) * x[i] * x[j] for i in range(r) for j in range(r))
+                if e_i != e_q:
+                    bad = (list(x), e_i, e_q)
+                    break
+            if bad:
+                res.fail("q2i:energy-narrow-dtype", f"{np.dtype(dt).name} {kind} matrix {Mi}: Ising energy {fs(bad[1])} != QUBO energy {fs(bad[2])} at x={bad[0]}")
+                break
+            res.features.append(f"narrow-dtype:{np.dtype(dt).name}")
 
     if case["mode"] == "nonsquare":
         # Ising_to_QUBO must reject as well
